@@ -43,6 +43,11 @@ SUBS = [
     ("CSz", "{M} c7,5 -4,1.5 11,-6 s1,1 2,-3 z"), ("A", "{M} A8.5,3.5 -45 0,1 7,5"), ("AL", "{M} a5,8 30 1,0 7,5 l2,2"),
     ("ALz", "{M} A12,20 200 1,1 7,5 L9,9 z"), ("LQCAz", "{M} L7,5 Q1,1 -4,1.5 C11,-6 0.25,13 -8.5,2.75 A5,8 30 0,1 2,2 z"),
     ("move-only", "{M}"), ("z-only", "{M} z"), ("Lz", "{M} L7,5 z"),
+    # subpaths that retrace themselves: segment i is the reversal of segment n-1-i, so that value-equality between the
+    # two ends of the pairwise swap (where identity is meant) collides
+    ("LLback", "{M} l4,7 l-4,-7"), ("LLbackz", "{M} l4,7 l-4,-7 z"), ("LLLLback", "{M} l4,0 l0,3 l0,-3 l-4,0"),
+    ("QQback", "{M} q2,3 5,1 q-3,2 -5,-1"), ("CCback", "{M} c1,2 3,4 5,1 c-2,3 -4,1 -5,-1"),
+    ("LQQLback", "{M} l4,7 q2,3 5,1 q-3,2 -5,-1 l-4,-7 z"),
 ]
 NOMOVE_OK = ["L", "LL", "LLz", "Q", "C", "A", "AL", "QTz", "z-only", "Lz"]      # usable right after a close without own move
 STARTS = ["M3,-2", "M10,1", "m-6,4"]
